@@ -53,6 +53,7 @@ def run(ctx, crate):
     from .c02 import rule_head_only_reap, rule_order_source
     rule_head_only_reap(ctx, crate)
     rule_order_source(ctx, crate)
+    D.rule_render_unless_hidden(ctx, crate)
 
 
 def status_stores(b):
@@ -284,6 +285,14 @@ def rule_drop_finish_once(ctx, crate, rule="R-DROP-FINISH-ONCE"):
         sl = b.slice_args(c, [2])
         ctx.check(sl.has_field("on_finish", "state::BarState"), rule, "uses-on_finish", b.name, c.loc(),
                   "Drop applies the configured on_finish", "Drop does not apply the configured finish behaviour", cfg)
+    # ... and on *every* path of an unfinished bar: nothing but is_finished() decides whether the final frame is painted
+    # (a second condition - the configured finish behaviour, the target kind - would let some unfinished bars die unpainted)
+    for e in guard_edges_false:
+        ok = bool(fins) and b.must_pass([e[1]], [c.bb for c in fins])
+        ctx.check(ok, rule, "every-unfinished-bar-finishes", b.name, "%s:%d" % (b.file, b.term(e[0]).get("line", 0)),
+                  "an unfinished bar is finished by Drop on every path",
+                  "Drop can skip the final frame of an unfinished bar (a condition besides is_finished() guards finish_using_style): its last throttled update is never painted "
+                  "and it stays in progress", cfg)
     # finished path: no draw, no state store
     for e in guard_edges_true:
         reg = b.edge_region(e)
